@@ -4,19 +4,20 @@
 # existing tests (guard off), demo passes without and fails with the change.
 set -u
 id=$1; src=$2
-wt=/tmp/wtc-confirm
-export CARGO_NET_OFFLINE=true CARGO_TARGET_DIR=/tmp/wtc-confirm-target
+S=${SLOT:-}
+wt=/tmp/wtc-confirm$S
+export CARGO_NET_OFFLINE=true CARGO_TARGET_DIR=/tmp/wtc-confirm$S-target
 if [ ! -d $wt ]; then git -C /repo worktree add -q --detach $wt HEAD || exit 9; fi
 git -C $wt checkout -q --detach $(git -C /repo rev-parse HEAD) && git -C $wt checkout -q -- . || exit 9
 demo=$(ls $src/demo.* | head -1)
 run_demo() { case $demo in *.py) timeout 600 python3 $demo "$1";; *) timeout 600 bash $demo "$1";; esac; }
 (cd $wt && cargo build --offline 2>&1 | tail -1)
-cp $CARGO_TARGET_DIR/debug/cicada /tmp/wtc-cicada-base
-run_demo /tmp/wtc-cicada-base > /tmp/wtc-demo-base.log 2>&1; base=$?
+cp $CARGO_TARGET_DIR/debug/cicada /tmp/wtc-cicada-base$S
+run_demo /tmp/wtc-cicada-base$S > /tmp/wtc-demo-base$S.log 2>&1; base=$?
 git -C $wt apply $src/patch.diff || { echo "RESULT $id patch does not apply"; exit 1; }
 (cd $wt && cargo build --offline 2>&1 | tail -1)
-cp $CARGO_TARGET_DIR/debug/cicada /tmp/wtc-cicada-mod
+cp $CARGO_TARGET_DIR/debug/cicada /tmp/wtc-cicada-mod$S
 tests=$(cd $wt && cargo test --workspace --no-fail-fast --offline 2>&1 | grep -E "^test result" | tr '\n' ' ')
-run_demo /tmp/wtc-cicada-mod > /tmp/wtc-demo-mod.log 2>&1; mod=$?
+run_demo /tmp/wtc-cicada-mod$S > /tmp/wtc-demo-mod$S.log 2>&1; mod=$?
 git -C $wt checkout -q -- .
 echo "RESULT $id demo_base_rc=$base demo_mod_rc=$mod tests: $tests"
